@@ -104,8 +104,11 @@ def apply_op(ctx, st, op, case):
         elif name == 'utxo_add':
             k = st.keys[op['key'] % len(st.keys)]
             st.n_add += 1
-            w.utxo_add(k.address, op['value'], wu.fake_txid(case['rng'], 'add', st.n_add), op['n'],
-                       confirmations=op['conf'])
+            txid_a = wu.fake_txid(case['rng'], 'add', st.n_add)
+            w.utxo_add(k.address, op['value'], txid_a, op['n'], confirmations=op['conf'])
+            if not hasattr(st, 'added'):
+                st.added = {}
+            st.added[(txid_a, op['n'])] = (k.address, op['value'], op['conf'])
         elif name == 'utxos_update':
             w.utxos_update()
             if 'broadcast' in st.flags:
@@ -155,6 +158,21 @@ def apply_op(ctx, st, op, case):
                                               'sent transaction %s' % (outp[0][:12], outp[1], st.spent[outp][:12]), case)
                     _after_broadcast(st, t)
                     st.flags.add('sibling_spend')
+        elif name == 'delete_funding':
+            # the record of the transaction that FUNDED an outpoint consumed by a stored sent transaction is
+            # deleted and the outpoint is reported to the wallet again (provider that lags behind / utxo_add):
+            # it stays spent, a stored transaction of this wallet consumes it
+            cands = sorted(o for o, spender in st.spent.items() if spender in st.stored and o[0] not in st.stored)
+            if cands:
+                outp = cands[op['pick'] % len(cands)]
+                w.transaction_delete(outp[0])
+                added = getattr(st, 'added', {})
+                if outp in added:
+                    a, v, c = added[outp]
+                    w.utxo_add(a, v, outp[0], outp[1], confirmations=c)
+                else:
+                    w.utxos_update()
+                st.flags.add('funding_record_deleted_and_reported_again')
         elif name == 'delete':
             if st.stored:
                 if 'last' in op:
@@ -327,6 +345,7 @@ def _strategy(ctx):
         st.fixed_dictionaries(dict(send, op=st.just('import_send'),
                                    medium=st.sampled_from(['object', 'dict', 'raw']))),
         st.fixed_dictionaries({'op': st.just('delete'), 'key': st.integers(0, 5)}),
+        st.fixed_dictionaries({'op': st.just('delete_funding'), 'pick': st.integers(0, 5)}),
         st.just({'op': 'reopen'}), st.just({'op': 'second_reader'}),
     )
     wallet = st.fixed_dictionaries({
